@@ -210,6 +210,14 @@ def print_assumptions(pid):
 def build_harness():
     hdir = os.path.join(VERIF, "harness")
     os.makedirs(BIN, exist_ok=True)
+    gm = os.path.join(hdir, "go.mod")
+    want = "replace github.com/antonmedv/expr => " + REPO
+    txt = open(gm).read()
+    cur = re.search(r"^replace github.com/antonmedv/expr => .*$", txt, re.M)
+    if cur and cur.group(0) != want:
+        if VERIF == "/verif":
+            raise SystemExit("refusing to point /verif/harness at %s: use tools/mkscratch.sh and run the scratch copy's check.py" % REPO)
+        open(gm, "w").write(txt.replace(cur.group(0), want))
     try:
         src = open(os.path.join(REPO, "go.sum"), "rb").read()
         open(os.path.join(hdir, "go.sum"), "wb").write(src)
